@@ -327,7 +327,7 @@ def run_native(name, label, args=None, timeout=900):
     """builds /verif/native/<name> against /repo's current tree and runs it: exit 0 = held on the whole stated domain,
     exit 1 = a concrete failing value was found (printed), anything else = undecided."""
     d = os.path.join(NATIVE_DIR, name)
-    tgt = os.path.join(BUILD, 'native-target', name)
+    tgt = os.path.join(BUILD, 'native-target', 'all')   # one target dir: the stand-ins share the compiled pallas crates
     os.makedirs(tgt, exist_ok=True)
     lock = os.path.join(REPO, 'Cargo.lock')
     if os.path.exists(lock) and not os.path.exists(os.path.join(d, 'Cargo.lock')):
